@@ -18,7 +18,7 @@ SETR = [
 TARGETS = [
     Target('sat_add', 'common/utility.h', r'uint64_t sat_add\(uint64_t x, uint64_t y\)'),
     Target('r_ctor', RL, r'range_t\(uint64_t offset, uint64_t length\)'),
-    Target('r_end', RL, r'uint64_t end\(\) const', rules=[(r'photon::sat_add\(offset, length\)', 'sat_add(this->offset, this->length)', 1)]),
+    Target('r_end', RL, r'uint64_t end\(\) const', rules=[(r'photon::sat_add\(', 'sat_add(', 0), fields_rule(['offset', 'length'])]),
     Target('r_lt', RL, r'bool operator < \(const range_t& rhs\) const', rules=[(r'(?<![\w>.])end\(\)', 'range_end(this)', 1), (r'rhs\.', 'rhs->', 1)]),
     Target('r_contains', RL, r'bool contains\(const range_t& x\) const', rules=[
         (r'(?<![\w>.])offset <= x\.offset', 'this->offset <= x->offset', 1), (r'(?<![\w>.])end\(\) >= x\.end\(\)', 'range_end(this) >= range_end(x)', 1)]),
